@@ -85,6 +85,13 @@ fn model_xml(namespace: &str, name: &str, version: &str, broken: bool) -> String
     <informationRequirement id="_ir_ok_b_{v}"><requiredInput href="#_in_b_{v}"/></informationRequirement>
     <literalExpression><text>{{"": s, "a\"b": s, "1": [[s], [], [[n, [b]]]], "x&#9;y": {{"": []}}, "\\": null, "é中": b, "k\u0001": n, "e": {{}}, "le": [{{}}, [], {{"": {{}}}}]}}</text></literalExpression>
   </decision>
+  <decision name="many" id="_many_{v}">
+    <variable typeRef="Any" name="many"/>
+    <informationRequirement id="_ir_many_s_{v}"><requiredInput href="#_in_s_{v}"/></informationRequirement>
+    <informationRequirement id="_ir_many_n_{v}"><requiredInput href="#_in_n_{v}"/></informationRequirement>
+    <informationRequirement id="_ir_many_b_{v}"><requiredInput href="#_in_b_{v}"/></informationRequirement>
+    <literalExpression><text>{many}</text></literalExpression>
+  </decision>
   <decision name="echo_mix" id="_echo_mix_{v}">
     <variable typeRef="Any" name="echo_mix"/>
     <informationRequirement id="_ir_mix_s_{v}"><requiredInput href="#_in_s_{v}"/></informationRequirement>
@@ -98,7 +105,8 @@ fn model_xml(namespace: &str, name: &str, version: &str, broken: bool) -> String
     name = name,
     v = version,
     logic = logic,
-    echoes = echoes
+    echoes = echoes,
+    many = crate::c18::MANY_EXPRESSION
   )
 }
 
